@@ -76,6 +76,11 @@ impl<const SENDER: bool> RawChannel<SENDER> {
         self.claimed = true;
     }
 
+    /// Marks the channel end as not owned (any more), such that dropping it closes nothing.
+    pub(crate) fn set_closed(&mut self) {
+        self.state = State::Closed;
+    }
+
     fn begin_close(&mut self) -> Result<CloseChannelEndFuture, Error> {
         self.client
             .close_channel_end(self.cookie, Self::channel_end(), self.claimed)
